@@ -125,6 +125,20 @@ impl AuthorizationHandlerWrapper {
     }
 }
 
+/// The role as C code can see it. A role with a NUL inside (legal in a certificate's UTF8String)
+/// has no such form: showing C code only the part in front of the NUL would authorize a different
+/// role than the certificate carries, so the caller denies the request instead.
+#[cfg(feature = "enable-tls")]
+fn role_as_c_string(role: &str) -> Option<std::ffi::CString> {
+    match std::ffi::CString::new(role) {
+        Ok(role) => Some(role),
+        Err(_) => {
+            tracing::warn!("role contains a NUL character, denying the request");
+            None
+        }
+    }
+}
+
 #[cfg(feature = "enable-tls")]
 impl AuthorizationHandler for AuthorizationHandlerWrapper {
     fn read_coils(
@@ -133,7 +147,10 @@ impl AuthorizationHandler for AuthorizationHandlerWrapper {
         range: rodbus::AddressRange,
         role: &str,
     ) -> Authorization {
-        let role = unsafe { &std::ffi::CString::from_vec_unchecked(role.into()) };
+        let Some(role) = role_as_c_string(role) else {
+            return Authorization::Deny;
+        };
+        let role = &role;
         self.inner
             .read_coils(unit_id.value, range.into(), role)
             .map(|result| result.into())
@@ -146,7 +163,10 @@ impl AuthorizationHandler for AuthorizationHandlerWrapper {
         range: rodbus::AddressRange,
         role: &str,
     ) -> Authorization {
-        let role = unsafe { &std::ffi::CString::from_vec_unchecked(role.into()) };
+        let Some(role) = role_as_c_string(role) else {
+            return Authorization::Deny;
+        };
+        let role = &role;
         self.inner
             .read_discrete_inputs(unit_id.value, range.into(), role)
             .map(|result| result.into())
@@ -159,7 +179,10 @@ impl AuthorizationHandler for AuthorizationHandlerWrapper {
         range: rodbus::AddressRange,
         role: &str,
     ) -> Authorization {
-        let role = unsafe { &std::ffi::CString::from_vec_unchecked(role.into()) };
+        let Some(role) = role_as_c_string(role) else {
+            return Authorization::Deny;
+        };
+        let role = &role;
         self.inner
             .read_holding_registers(unit_id.value, range.into(), role)
             .map(|result| result.into())
@@ -172,7 +195,10 @@ impl AuthorizationHandler for AuthorizationHandlerWrapper {
         range: rodbus::AddressRange,
         role: &str,
     ) -> Authorization {
-        let role = unsafe { &std::ffi::CString::from_vec_unchecked(role.into()) };
+        let Some(role) = role_as_c_string(role) else {
+            return Authorization::Deny;
+        };
+        let role = &role;
         self.inner
             .read_input_registers(unit_id.value, range.into(), role)
             .map(|result| result.into())
@@ -180,7 +206,10 @@ impl AuthorizationHandler for AuthorizationHandlerWrapper {
     }
 
     fn write_single_coil(&self, unit_id: UnitId, idx: u16, role: &str) -> Authorization {
-        let role = unsafe { &std::ffi::CString::from_vec_unchecked(role.into()) };
+        let Some(role) = role_as_c_string(role) else {
+            return Authorization::Deny;
+        };
+        let role = &role;
         self.inner
             .write_single_coil(unit_id.value, idx, role)
             .map(|result| result.into())
@@ -188,7 +217,10 @@ impl AuthorizationHandler for AuthorizationHandlerWrapper {
     }
 
     fn write_single_register(&self, unit_id: UnitId, idx: u16, role: &str) -> Authorization {
-        let role = unsafe { &std::ffi::CString::from_vec_unchecked(role.into()) };
+        let Some(role) = role_as_c_string(role) else {
+            return Authorization::Deny;
+        };
+        let role = &role;
         self.inner
             .write_single_register(unit_id.value, idx, role)
             .map(|result| result.into())
@@ -201,7 +233,10 @@ impl AuthorizationHandler for AuthorizationHandlerWrapper {
         range: rodbus::AddressRange,
         role: &str,
     ) -> Authorization {
-        let role = unsafe { &std::ffi::CString::from_vec_unchecked(role.into()) };
+        let Some(role) = role_as_c_string(role) else {
+            return Authorization::Deny;
+        };
+        let role = &role;
         self.inner
             .write_multiple_coils(unit_id.value, range.into(), role)
             .map(|result| result.into())
@@ -214,7 +249,10 @@ impl AuthorizationHandler for AuthorizationHandlerWrapper {
         range: rodbus::AddressRange,
         role: &str,
     ) -> Authorization {
-        let role = unsafe { &std::ffi::CString::from_vec_unchecked(role.into()) };
+        let Some(role) = role_as_c_string(role) else {
+            return Authorization::Deny;
+        };
+        let role = &role;
         self.inner
             .write_multiple_registers(unit_id.value, range.into(), role)
             .map(|result| result.into())
